@@ -647,6 +647,7 @@ fn main() {
             let name = |i: u16| world.table[i as usize].name.to_string();
             println!("{}", serde_json::to_string_pretty(&t.to_json(&name)).unwrap());
         }
+        "ubprobe" => std::process::exit(cmd_ubprobe(&world, &args)),
         "digests" => {
             exec::CODEC_ONLY.store(args.codec_only, std::sync::atomic::Ordering::Relaxed);
             for (r, d) in digests_of(&world, args.seed, args.runs.unwrap_or(1000), args.workers, args.tier) {
@@ -658,6 +659,61 @@ fn main() {
             std::process::exit(2);
         }
     }
+}
+
+/// Small PRNG-free batch meant to be executed by an interpreter that detects undefined behaviour
+/// (`cargo +nightly miri run ... -- ubprobe`). The history about to run is written to
+/// `<replay-dir>/ubprobe-current.json` first, so that if the interpreter aborts the process the file
+/// names the (history, fault) pair it was executing. Works natively too (then it is just a tiny check).
+fn cmd_ubprobe(world: &World, args: &Args) -> i32 {
+    exec::LEAN.store(true, std::sync::atomic::Ordering::Relaxed);
+    let traces = gen::ub_probe_traces(world);
+    let _ = std::fs::create_dir_all(&args.replay_dir);
+    let cur = format!("{}/ubprobe-current.json", args.replay_dir);
+    let name = |i: u16| world.table[i as usize].name.to_string();
+    let (mut execs, mut fired) = (0u64, 0u64);
+    for t in &traces {
+        if let Err(m) = validate(&world.table, t) {
+            eprintln!("harness error: ubprobe trace invalid: {}", m);
+            return 2;
+        }
+        let w = match write_phase(&world.table, t, false) {
+            Ok(w) => w,
+            Err(v) => {
+                let doc = replay_json(world, t, &Fault::None, &v, json!({"variant": args.variant, "source": "ubprobe"}));
+                let p = format!("{}/ubprobe-{}-{}.json", args.replay_dir, t.run, v.check);
+                let _ = std::fs::write(&p, serde_json::to_string_pretty(&doc).unwrap());
+                println!("violation in ubprobe history {}: check {} :: {}", t.run, v.check, v.detail);
+                println!("VIOLATION property={} replay={}", PROPERTY, p);
+                return 1;
+            }
+        };
+        let n = w.medium.len();
+        let mut plan = vec![Fault::None];
+        plan.extend((0..n).map(Fault::TruncateAt));
+        plan.extend([0usize, n / 2, n.saturating_sub(1)].iter().map(|c| Fault::IoErrorAt(*c)));
+        plan.extend([7usize, 8 * (n / 2) + 3, 8 * n - 1].iter().map(|b| Fault::BitFlip(*b)));
+        plan.push(Fault::Trailing(vec![0xAB, 0xCD]));
+        for f in &plan {
+            let doc = json!({"property": PROPERTY, "check": "UB", "fault": f.to_json(), "trace": t.to_json(&name),
+                "info": {"variant": args.variant, "source": "ubprobe", "note": "written before execution; if the interpreter aborted, this is the pair it was executing"}});
+            let _ = std::fs::write(&cur, serde_json::to_string(&doc).unwrap());
+            let p = read_pass(&world.table, t, &w, f, false);
+            execs += 1;
+            fired += p.stats.fired as u64;
+            if let Some(v) = p.violation {
+                let doc = replay_json(world, t, f, &v, json!({"variant": args.variant, "source": "ubprobe"}));
+                let path = format!("{}/ubprobe-{}-{}.json", args.replay_dir, t.run, v.check);
+                let _ = std::fs::write(&path, serde_json::to_string_pretty(&doc).unwrap());
+                println!("violation in ubprobe history {}: check {} record {} :: {}", t.run, v.check, v.rec, v.detail);
+                println!("VIOLATION property={} replay={}", PROPERTY, path);
+                return 1;
+            }
+        }
+    }
+    let _ = std::fs::remove_file(&cur);
+    println!("UBPROBE-OK histories={} executions={} faults_fired={}", traces.len(), execs, fired);
+    0
 }
 
 fn cmd_run(world: &World, args: &Args) -> i32 {
